@@ -284,5 +284,50 @@ theorem checkC10_iff (ho : StrictTotal N) (d : Desc N) (p : Proc N) (hn : (d.uni
       (c5 h.nodup h.unitsExact).2 ⟨h.predsExact, h.predsNodup⟩, List.all_eq_true.2 h.inputsOriginal,
       List.all_eq_true.2 h.outputsOriginal⟩
 
+/-! ## non-vacuity (`N := Nat`, evaluated by `decide`) -/
+
+namespace C10Examples
+
+/-- capabilities 100, 101, 102 (101 also spelled 201 — `exFold` identifies `n` and `n + 100` for `n ≥ 100`… here: mod 100).
+Units: 1 (in; 100,101) → 2 (100,201) → 3 (out; 100,101);  1 → 4 (102 only: incompatible connection, unit left empty);
+1 → 5 (100) → 6 (100) : a two-unit dead branch (6 has an outgoing connection to 7 which declares nothing 1 offers,
+so 7 is emptied, and then 6 and 5 are dead ends);  8 (in-out, isolated; 101 with a memory ACL spelled 201). -/
+def exFold (n : Nat) : Nat := n % 100
+
+def exDesc : Desc Nat :=
+  ⟨[⟨5, 1, [100], false, false, []⟩, ⟨3, 2, [100, 101], false, true, []⟩, ⟨1, 2, [100, 101], true, false, []⟩,
+    ⟨2, 1, [100, 201, 101], false, false, []⟩, ⟨4, 1, [102], false, false, []⟩, ⟨6, 1, [100], false, false, []⟩,
+    ⟨7, 1, [102], false, false, []⟩, ⟨8, 3, [101], true, true, [201]⟩],
+   [[1, 2], [2, 3], [1, 4], [1, 5], [5, 6], [6, 7], [1, 2]]⟩
+
+/-- what the tests below look at -/
+def view (r : Except (LoadError Nat) (Proc Nat)) : List (Nat × List Nat × List Nat) :=
+  match r with
+  | .ok p => (p.inPorts ++ p.inOut).map (fun m => (m.name, m.caps, m.acl)) ++
+      (p.outPorts ++ p.internal).map (fun f => (f.model.name, f.model.caps, f.preds))
+  | .error _ => []
+
+/-- the description is accepted, and what is kept: units 1, 8 (in-out; ACL in standard spelling), 3, 2 with their fed
+capabilities (each once) and kept predecessors -/
+example : view (load exFold exDesc) =
+    [(1, [100, 101], []), (8, [101], [101]), (3, [100, 101], [2]), (2, [100, 101], [1])] := by decide
+
+/-- the checker accepts the loaded processor … -/
+example : (match load exFold exDesc with | .ok p => checkC10 exFold exDesc p | .error _ => false) = true := by decide
+/-- … its side conditions hold (distinct names, no cycle) … -/
+example : nodupB (exDesc.units.map (·.name)) = true ∧ (dgOf exFold exDesc).rgAll.acyclicB = true := by decide
+/-- … and it rejects a processor that keeps the dead branch, or loses a capability. -/
+example : (match load exFold exDesc with
+    | .ok p => checkC10 exFold exDesc { p with internal := ⟨⟨5, 1, [100], false, false, []⟩, [1]⟩ :: p.internal }
+    | .error _ => true) = false := by decide
+example : (match load exFold exDesc with
+    | .ok p => checkC10 exFold exDesc { p with inPorts := p.inPorts.map (fun m => { m with caps := [100] }) }
+    | .error _ => true) = false := by decide
+
+/-- the theorem applies to the example -/
+example : ∀ p, load exFold exDesc = .ok p → C10_Holds exFold exDesc p := fun _ h => C10_usable_part exFold h
+
+end C10Examples
+
 end Loader
 end ProcSim
